@@ -1101,6 +1101,8 @@ class WCS(GWCSAPIMixin):
         if not utils.isnumerical(args[0]):
             inp_frame = self._pipeline[self._get_frame_index(from_frame)].frame
             args = inp_frame.coordinate_to_quantity(*args)
+            if inp_frame.naxes == 1:
+                args = [args]
             if not transform.uses_quantity:
                 args = utils.get_values(inp_frame.unit, *args)
 
